@@ -623,6 +623,55 @@ func (j *specJudge) judgeRoundingMethods(x ref.Bits, cx *opClass, dp int, mode i
 	}
 }
 
+// judgeScaling checks Ldexp and Frexp on special and zero operands: as for
+// math.Ldexp / math.Frexp, a zero stays a zero of the same sign, an infinity
+// stays that infinity and a NaN is propagated, whatever the integer argument.
+func (j *specJudge) judgeScaling(x ref.Bits, cx *opClass, e int) {
+	xn := ref.Decode(x)
+	if !isSpecialOrZero(xn) {
+		return
+	}
+	dx := toD(x)
+	for k, name := range []string{"Ldexp", "Frexp"} {
+		var r D
+		pv, pan := try(func() {
+			if k == 0 {
+				r = decimal128.Ldexp(dx, e)
+			} else {
+				r, _ = decimal128.Frexp(dx)
+			}
+		})
+		mk := func() *mon.Case {
+			c := j.ctx.NewCase(j.sh, "scale-"+name)
+			c.X = []string{x.Hex()}
+			c.N = []int64{int64(e)}
+			c.S = []string{cx.name}
+			return c
+		}
+		j.sh.Eval(hash2("scale-"+name, x.Hi, x.Lo, uint64(e)), true)
+		if pan {
+			j.sh.Violate(mk(), "panic", "no panic", fmt.Sprint(pv), "")
+			continue
+		}
+		got := num(r)
+		switch {
+		case xn.Class == ref.NaN:
+			if got.Class != ref.NaN {
+				j.sh.Violate(mk(), "class", "NaN", got.String(), "x="+xn.String())
+			}
+		case xn.Class == ref.Inf:
+			if got.Class != ref.Inf || got.Neg != xn.Neg {
+				j.sh.Violate(mk(), "class", "the infinity itself", got.String(), "x="+xn.String())
+			}
+		default:
+			if !got.IsZero() || got.Neg != xn.Neg {
+				j.sh.Violate(mk(), "class", fmt.Sprintf("zero neg=%v", xn.Neg), got.String(), fmt.Sprintf("x=%v e=%d", xn, e))
+			}
+		}
+		j.sh.Cell("method/" + name + "/" + cx.name)
+	}
+}
+
 // judgeClassify checks the predicates on an arbitrary bit pattern.
 func (j *specJudge) judgeClassify(x ref.Bits) {
 	n := ref.Decode(x)
@@ -698,6 +747,13 @@ func runC15(c *Ctx) {
 							j.judgeRoundingMethods(classes[a].gen(r), &classes[a], dp, m)
 						}
 					}
+					for k := 0; k < 6; k++ {
+						e := hostileInts[r.Intn(len(hostileInts))]
+						if r.Bool() {
+							e = r.Pick(12322, 12323, 12324, -12323, -12324, 20000, -20000, r.Range(-13000, 13000))
+						}
+						j.judgeScaling(classes[a].gen(r), &classes[a], e)
+					}
 				}
 			}
 		}
@@ -713,7 +769,7 @@ func runC15(c *Ctx) {
 	c.Col.Res.Targets = append(c.Col.Res.Targets,
 		mon.Target{Prefix: "bin/", Total: nb * 6, Min: nb * 6},
 		mon.Target{Prefix: "un/", Total: len(classes) * len(unOps), Min: len(classes) * len(unOps)},
-		mon.Target{Prefix: "method/", Total: 15, Min: 15},
+		mon.Target{Prefix: "method/", Total: 25, Min: 25},
 		mon.Target{Prefix: "classify/", Total: 3, Min: 3},
 	)
 }
